@@ -308,6 +308,13 @@ def run(ctx):
         kcs = [known_class(x, t) for x in merged]
         okp, hp = P.compile(t)
         nbj += 1
+        if okp and hp != hr:
+            # the compiled form of some kinds (pivot_root, mount) keeps the order of the rules, and the block is sorted:
+            # compare with the merged rules written out, from their fields, in the printed order
+            rf2 = '\n'.join(ref_text(x) for x in merged)
+            ok2, h2 = P.compile(rf2)
+            if ok2 and h2 == hp:
+                continue
         if not okp or hp != hr:
             kc = next((k for k in kcs if k), None)
             if kc and ctx.known_finding(kc):
